@@ -41,8 +41,6 @@ import (
 
 	"github.com/google/uuid"
 	"pgregory.net/rapid"
-	zsqlite "zombiezen.com/go/sqlite"
-	"zombiezen.com/go/sqlite/sqlitex"
 
 	"github.com/element-of-surprise/coercion"
 	"github.com/element-of-surprise/coercion/workflow"
@@ -230,20 +228,32 @@ func (r *c14run) skip(label string) {
 	r.res.Label(label)
 }
 
-// adoptSubmitted turns exp (built from spec) into the plan the vault must hold after a successful Submit of `submitted`
-// (built from the same spec): the definition of the specification, the ids and submit time Submit assigned, pristine
-// state.
-func adoptSubmitted(spec store.PlanSpec, exp, submitted *workflow.Plan) {
-	for _, tg := range store.Targets(spec) {
-		e, s := store.Resolve(exp, tg), store.Resolve(submitted, tg)
-		if e == nil || s == nil {
-			continue
-		}
-		if setter, ok := e.(interface{ SetID(uuid.UUID) }); ok {
-			setter.SetID(store.ObjectID(s))
+// cmpOptFor: on the cosmos fake the ORDER of actions inside a group or sequence is never judged. The vault reads actions
+// with "ORDER BY c.pos ASC", the package's fake ignores ORDER BY and answers in insertion order, so the order seen there
+// is an accident of how Create filled its batch (or, after a patch, of map iteration in the fake) and not of what the
+// vault stores. Blocks and sequences are ordered by the id lists of their parent documents and stay judged.
+func cmpOptFor(arm string) store.CmpOpt {
+	if arm == store.ArmCosmosFake {
+		return store.CmpOpt{ActionsAnyOrder: true}
+	}
+	return store.CmpOpt{}
+}
+
+// rowsDiff returns a - b table by table.
+func rowsDiff(a, b store.Rows) store.Rows {
+	out := store.Rows{ByTable: map[string]int{}}
+	for t, n := range a.ByTable {
+		out.ByTable[t] = n - b.ByTable[t]
+	}
+	for t, n := range b.ByTable {
+		if _, ok := a.ByTable[t]; !ok {
+			out.ByTable[t] = -n
 		}
 	}
-	exp.SubmitTime = submitted.SubmitTime
+	for _, n := range out.ByTable {
+		out.Total += n
+	}
+	return out
 }
 
 func diffText(diffs []store.Diff) string {
@@ -304,8 +314,15 @@ func (r *c14run) poison(c AtomCase) {
 		}
 	}
 
-	var modelRows store.RowCounts
-	var failedIDs []uuid.UUID
+	// Row accounting is relative: the tables are measured before and after every Submit (store.SqliteRows discovers the
+	// schema); a Submit that failed must leave the measurement unchanged ("no trace of it exists").
+	before, cerr := h.Rows(uuid.Nil)
+	if cerr != nil {
+		r.skip("row_count_failed")
+		return
+	}
+	okIDs := map[uuid.UUID]bool{}
+	failed := 0
 	for _, v := range variants {
 		where := "healthy plan"
 		var poisoned *store.ActionSpec
@@ -324,34 +341,37 @@ func (r *c14run) poison(c AtomCase) {
 				res.NonTrivial = true // ... or below the first block
 			}
 		}
-		user := store.BuildUser(spec) // what is submitted
-		exp := store.Build(spec)      // an independent image of it; gets the ids Submit assigns
+		user := store.BuildUser(spec) // what is submitted; never looked at again (Submit: "Using the Plan object after submitting it results in undefined behavior")
+		exp := store.Build(spec)      // an independent image of the same specification
 		if poisoned != nil {
 			poisoned.Poison = store.PoisonNone // the specification is shared with the case value: restore it at once
 		}
 		var serr error
-		if guard(res, "C14", r.arm, "Submit with "+where, func() { _, serr = ws.Submit(ctx, user) }) {
+		var id uuid.UUID // the id Submit RETURNS is the only id the harness knows
+		if guard(res, "C14", r.arm, "Submit with "+where, func() { id, serr = ws.Submit(ctx, user) }) {
 			return
 		}
 		vprop.Count("submits", 1)
-		id := user.ID
 		if serr == nil {
-			// Clause: "a successful Submit always implies the stored plan equals the submitted one"
-			adoptSubmitted(spec, exp, user)
+			// Clause: "a successful Submit always implies the stored plan equals the submitted one". Equality is judged on
+			// the definition and the pristine state; which ids and which submit time Submit hands out is C16's business.
 			var got *workflow.Plan
 			var rerr error
 			if guard(res, "C14", r.arm, "Read after Submit", func() { got, rerr = h.Vault.Read(ctx, id) }) {
 				return
 			}
 			if rerr != nil {
-				r.fail("poison:submit-ok:read-error", "Submit (%s) returned nil but Read(%s) fails: %v", where, id, rerr)
+				r.fail("poison:submit-ok:read-error", "Submit (%s) returned %s and nil but Read of that id fails: %v", where, id, rerr)
 				return
 			}
-			if diffs := store.DiffPlans(exp, got, store.CmpOpt{ReqByJSON: true}); len(diffs) > 0 {
+			if got != nil {
+				exp.SubmitTime = got.SubmitTime
+			}
+			if diffs := store.DiffPlans(exp, got, store.CmpOpt{IgnoreIDs: true, ReqByJSON: true}); len(diffs) > 0 {
 				r.fail("poison:submit-ok:"+diffs[0].Field, "Submit (%s) returned nil but the stored plan %s differs from the submitted one:%s", where, id, diffText(diffs))
 				return
 			}
-			modelRows = modelRows.Add(store.RowsOf(spec))
+			okIDs[id] = true
 			vprop.Count("submits_ok", 1)
 		} else {
 			if v.pos < 0 {
@@ -360,44 +380,37 @@ func (r *c14run) poison(c AtomCase) {
 				return
 			}
 			vprop.Count("submits_failed", 1)
-			if id == uuid.Nil {
-				res.Label("rejected_before_create")
-				continue
-			}
+			failed++
 			// Clause: "afterwards either the complete plan is readable or no trace of it exists"
-			rows, cerr := h.Rows(id.String())
+			after, cerr := h.Rows(uuid.Nil)
 			if cerr != nil {
 				r.skip("row_count_failed")
 				return
 			}
-			if rows.Total() != 0 {
-				r.fail("poison:submit-failed:rows-left", "Submit (%s) failed (%v) but rows of plan %s remain: %+v", where, serr, id, rows)
+			if !after.Equal(before) {
+				r.fail("poison:submit-failed:rows-left", "Submit (%s) failed (%v) but the tables changed: before %s, after %s", where, serr, before, after)
 				return
 			}
-			var got *workflow.Plan
-			var rerr error
-			if guard(res, "C14", r.arm, "Read after failed Submit", func() { got, rerr = h.Vault.Read(ctx, id) }) {
-				return
+			if id != uuid.Nil { // a failed Submit need not return an id; if it does, that id must be unknown to the vault
+				var got *workflow.Plan
+				var rerr error
+				if guard(res, "C14", r.arm, "Read after failed Submit", func() { got, rerr = h.Vault.Read(ctx, id) }) {
+					return
+				}
+				if rerr == nil {
+					r.fail("poison:submit-failed:readable", "Submit (%s) failed (%v) but Read(%s) returns a plan (%s)", where, serr, id, planSummary(got))
+					return
+				}
 			}
-			if rerr == nil {
-				r.fail("poison:submit-failed:readable", "Submit (%s) failed (%v) but Read(%s) returns a plan (%s)", where, serr, id, planSummary(got))
-				return
-			}
-			failedIDs = append(failedIDs, id)
 		}
-		total, cerr := h.Rows("")
-		if cerr != nil {
+		if before, cerr = h.Rows(uuid.Nil); cerr != nil {
 			r.skip("row_count_failed")
-			return
-		}
-		if total != modelRows {
-			r.fail("poison:rows-total", "after Submit (%s, err=%v) the tables hold %+v rows, the successfully submitted plans account for %+v", where, serr, total, modelRows)
 			return
 		}
 	}
 	vprop.Count("poison_shapes_fully_enumerated", 1) // every action position x every drawn poison kind was submitted
-	// "List omits it"
-	if len(failedIDs) > 0 {
+	// "List omits it": whatever List returns must be one of the plans whose Submit succeeded
+	if failed > 0 {
 		var ch chan storage.Stream[storage.ListResult]
 		var lerr error
 		if guard(res, "C14", r.arm, "List", func() { ch, lerr = h.Vault.List(ctx, 100000) }) {
@@ -410,7 +423,7 @@ func (r *c14run) poison(c AtomCase) {
 		items, errs, closed := drain(ch)
 		if !closed {
 			stalled = true
-			res.Label("list_stalled_unjudged") // the never-closed List stream is C15's finding
+			res.Label("list_stalled_unjudged") // a never-closed List stream is C15's finding
 			return
 		}
 		if len(errs) > 0 {
@@ -418,11 +431,9 @@ func (r *c14run) poison(c AtomCase) {
 			return
 		}
 		for _, it := range items {
-			for _, id := range failedIDs {
-				if it.ID == id {
-					r.fail("poison:submit-failed:listed", "Submit failed for plan %s but List returns it", id)
-					return
-				}
+			if !okIDs[it.ID] {
+				r.fail("poison:submit-failed:listed", "List returns plan %s, which is none of the %d plans whose Submit succeeded (%d Submits failed)", it.ID, len(okIDs), failed)
+				return
 			}
 		}
 	}
@@ -451,14 +462,30 @@ func (r *c14run) dup(c AtomCase) {
 	if guard(res, "C14", r.arm, "Create(first)", func() { cerr = h.Vault.Create(ctx, first) }) {
 		return
 	}
+	firstSpec := *c.First
+	if cerr != nil && !store.IsPristine(firstSpec) {
+		// C13/C14 give Create the definition; a vault may refuse a plan that already carries execution state. The case
+		// is then played with the pristine image of the same plan.
+		res.Label("create_nonpristine_refused")
+		firstSpec = store.Pristine(firstSpec)
+		first = store.Build(firstSpec)
+		if guard(res, "C14", r.arm, "Create(first, pristine)", func() { cerr = h.Vault.Create(ctx, first) }) {
+			return
+		}
+	}
 	if cerr != nil {
 		r.skip("setup_create_failed")
 		return
 	}
-	var rowsBefore, totalBefore store.RowCounts
+	var rowsBefore, totalBefore store.Rows
 	if h.Sqlite != nil {
-		rowsBefore, _ = h.Rows(id.String())
-		totalBefore, _ = h.Rows("")
+		var e1, e2 error
+		rowsBefore, e1 = h.Rows(id)
+		totalBefore, e2 = h.Rows(uuid.Nil)
+		if e1 != nil || e2 != nil {
+			r.skip("row_count_failed")
+			return
+		}
 	}
 	second := store.Build(*c.Second)
 	if second.ID != id {
@@ -483,15 +510,19 @@ func (r *c14run) dup(c AtomCase) {
 		r.fail("dup:first-altered:unreadable", "after the failed second Create the first plan %s cannot be read: %v", id, rerr)
 		return
 	}
-	if diffs := store.DiffPlans(store.Build(*c.First), got, store.CmpOpt{}); len(diffs) > 0 {
+	if diffs := store.DiffPlans(store.Build(firstSpec), got, cmpOptFor(r.arm)); len(diffs) > 0 {
 		r.fail("dup:first-altered:"+diffs[0].Field, "after the failed second Create plan %s differs from the first:%s", id, diffText(diffs))
 		return
 	}
 	if h.Sqlite != nil {
-		rowsAfter, _ := h.Rows(id.String())
-		totalAfter, _ := h.Rows("")
-		if rowsAfter != rowsBefore || totalAfter != totalBefore {
-			r.fail("dup:rows-changed", "row counts changed by the failed second Create: plan rows %+v -> %+v, all rows %+v -> %+v", rowsBefore, rowsAfter, totalBefore, totalAfter)
+		rowsAfter, e1 := h.Rows(id)
+		totalAfter, e2 := h.Rows(uuid.Nil)
+		if e1 != nil || e2 != nil {
+			r.skip("row_count_failed")
+			return
+		}
+		if !rowsAfter.Equal(rowsBefore) || !totalAfter.Equal(totalBefore) {
+			r.fail("dup:rows-changed", "row counts changed by the failed second Create: plan rows %s -> %s, all rows %s -> %s", rowsBefore, rowsAfter, totalBefore, totalAfter)
 			return
 		}
 	}
@@ -522,11 +553,22 @@ func (r *c14run) interleave(c AtomCase) {
 	defer h.Close()
 	model := store.NewModel()
 	pms := map[int]*store.PlanModel{}
+	// Row accounting is relative (no table or row layout is assumed): the rows a plan contributes are measured when it is
+	// created; deleting it must take exactly those away again, table by table.
+	contribution := map[int]store.Rows{}
 	for si, st := range c.Steps {
 		if st.Plan < 0 || st.Plan >= len(c.Plans) {
 			continue
 		}
 		spec := c.Plans[st.Plan]
+		var before store.Rows
+		if h.Sqlite != nil {
+			var cerr error
+			if before, cerr = h.Rows(uuid.Nil); cerr != nil {
+				r.skip("row_count_failed")
+				return
+			}
+		}
 		switch st.Kind {
 		case "create":
 			if pms[st.Plan] != nil {
@@ -573,9 +615,13 @@ func (r *c14run) interleave(c AtomCase) {
 					return
 				}
 				if h.Sqlite != nil {
-					rows, _ := h.Rows(id.String())
-					if rows.Total() != 0 {
-						r.fail("interleave:victim-rows-left", "step %d (%s plan %d): rows of deleted plan %s remain: %+v", si, st.Kind, st.Plan, id, rows)
+					rows, cerr := h.Rows(id)
+					if cerr != nil {
+						r.skip("row_count_failed")
+						return
+					}
+					if rows.Total != 0 {
+						r.fail("interleave:victim-rows-left", "step %d (%s plan %d): rows of deleted plan %s remain: %s", si, st.Kind, st.Plan, id, rows)
 						return
 					}
 				}
@@ -585,19 +631,21 @@ func (r *c14run) interleave(c AtomCase) {
 				r.fail("interleave:other-unreadable", "step %d (%s plan %d): stored plan %s cannot be read: %v", si, st.Kind, st.Plan, id, rerr)
 				return
 			}
-			if diffs := store.DiffPlans(pm.Plan, got, store.CmpOpt{}); len(diffs) > 0 {
+			if diffs := store.DiffPlans(pm.Plan, got, cmpOptFor(r.arm)); len(diffs) > 0 {
 				r.fail("interleave:other-damaged:"+diffs[0].Field, "step %d (%s plan %d): stored plan %s differs from the model:%s", si, st.Kind, st.Plan, id, diffText(diffs))
 				return
 			}
 		}
 		if h.Sqlite != nil {
-			total, cerr := h.Rows("")
+			after, cerr := h.Rows(uuid.Nil)
 			if cerr != nil {
 				r.skip("row_count_failed")
 				return
 			}
-			if want := model.Rows(); total != want {
-				r.fail("interleave:rows-total", "step %d (%s plan %d): the tables hold %+v rows, the live plans of the model account for %+v", si, st.Kind, st.Plan, total, want)
+			if st.Kind == "create" {
+				contribution[st.Plan] = rowsDiff(after, before)
+			} else if want := rowsDiff(before, contribution[st.Plan]); !after.Equal(want) {
+				r.fail("interleave:rows-total", "step %d (delete plan %d): the tables held %s, the plan had added %s when it was created, after its Delete they hold %s", si, st.Plan, before, contribution[st.Plan], after)
 				return
 			}
 		}
@@ -669,23 +717,6 @@ func TestC14KillChild(t *testing.T) {
 	os.Exit(0)
 }
 
-func planIDs(h *store.Handle) ([]string, error) {
-	pool := h.Sqlite.Pool()
-	conn, err := pool.Take(context.Background())
-	if err != nil {
-		return nil, err
-	}
-	defer pool.Put(conn)
-	var ids []string
-	err = sqlitex.ExecuteTransient(conn, "SELECT id FROM plans", &sqlitex.ExecOptions{
-		ResultFunc: func(stmt *zsqlite.Stmt) error {
-			ids = append(ids, stmt.ColumnText(0))
-			return nil
-		},
-	})
-	return ids, err
-}
-
 func (r *c14run) kill(c AtomCase) {
 	res := r.res
 	if c.Big == nil || c.Big.K < 1 {
@@ -746,24 +777,43 @@ func (r *c14run) kill(c AtomCase) {
 	}
 
 	reg := store.NewRegistry()
+	// baseline: what the tables of a freshly created, empty store of this schema hold (a schema may own rows itself)
+	bh, err := store.OpenDir(filepath.Join(dir, "baseline"), reg)
+	if err != nil {
+		r.skip("vault_open_failed")
+		return
+	}
+	baseline, berr := bh.Rows(uuid.Nil)
+	bh.Close()
+	if berr != nil {
+		r.skip("row_count_failed")
+		return
+	}
 	h, err := store.OpenDir(filepath.Join(dir, "db"), reg)
 	if err != nil {
 		// a database that cannot be opened after the kill: neither "complete plan readable" nor "no trace"
 		r.fail("kill:store-unusable", "after SIGKILL at insert %d of %d the store cannot be opened: %v", c.Big.K, objects, err)
 		return
 	}
-	defer h.Close()
-	rows, err := h.Rows("")
+	stalled := false
+	defer func() {
+		if stalled {
+			h.Abandon()
+		} else {
+			h.Close()
+		}
+	}()
+	rows, err := h.Rows(uuid.Nil)
 	if err != nil {
-		r.fail("kill:store-unusable", "after SIGKILL at insert %d of %d the tables cannot be counted: %v", c.Big.K, objects, err)
+		r.skip("row_count_failed") // the harness could not measure; says nothing about the store
 		return
 	}
 	submitOK := returned && string(marker) == "ok"
-	if rows.Total() == 0 {
+	if rows.Equal(baseline) {
 		// "no trace of it exists"
 		if submitOK {
 			// Clause: "a successful Submit always implies the stored plan equals the submitted one"
-			r.fail("kill:submit-ok-but-missing", "the child's Submit returned nil, yet no row exists after reopening")
+			r.fail("kill:submit-ok-but-missing", "the child's Submit returned nil, yet the re-opened store holds nothing but the rows of an empty store (%s)", rows)
 			return
 		}
 		if killed && !returned {
@@ -777,28 +827,45 @@ func (r *c14run) kill(c AtomCase) {
 		}
 		return
 	}
-	// something is there: it must be the complete plan
-	want := store.RowsOf(spec)
-	ids, err := planIDs(h)
-	if rows != want || err != nil || len(ids) != 1 {
-		r.fail("kill:partial-plan", "after SIGKILL at insert %d of %d (killed=%v, submit returned=%v %q) the tables hold %+v rows; a complete plan has %+v, none has 0 (plan ids %v, err %v)",
-			c.Big.K, objects, killed, returned, marker, rows, want, ids, err)
+	// something is there: it must be the complete plan, found through the public API
+	var ch chan storage.Stream[storage.ListResult]
+	var lerr error
+	if guard(res, "C14", r.arm, "List after kill", func() { ch, lerr = h.Vault.List(context.Background(), 100000) }) {
 		return
 	}
-	id, perr := uuid.Parse(ids[0])
+	if lerr != nil || ch == nil {
+		r.skip("list_unusable_unjudged")
+		return
+	}
+	items, errs, closed := drain(ch)
+	if !closed {
+		stalled = true
+		r.skip("list_stalled_unjudged")
+		return
+	}
+	if len(errs) > 0 {
+		r.skip("list_unusable_unjudged")
+		return
+	}
+	if len(items) != 1 {
+		r.fail("kill:partial-plan", "after SIGKILL at insert %d of %d (killed=%v, submit returned=%v %q) the tables hold %s (an empty store holds %s) but List returns %d plans: neither the complete plan nor no trace",
+			c.Big.K, objects, killed, returned, marker, rows, baseline, len(items))
+		return
+	}
+	id := items[0].ID
 	var got *workflow.Plan
 	var rerr error
-	if perr == nil {
-		if guard(res, "C14", r.arm, "Read after kill", func() { got, rerr = h.Vault.Read(context.Background(), id) }) {
-			return
-		}
+	if guard(res, "C14", r.arm, "Read after kill", func() { got, rerr = h.Vault.Read(context.Background(), id) }) {
+		return
 	}
-	if perr != nil || rerr != nil {
-		r.fail("kill:partial-plan", "after SIGKILL at insert %d of %d the stored plan %v cannot be read: %v %v", c.Big.K, objects, ids, perr, rerr)
+	if rerr != nil {
+		r.fail("kill:partial-plan", "after SIGKILL at insert %d of %d the tables hold %s and List returns plan %s, which cannot be read: %v", c.Big.K, objects, rows, id, rerr)
 		return
 	}
 	exp := store.Build(spec)
-	exp.SubmitTime = got.SubmitTime // assigned by Submit in the child
+	if got != nil {
+		exp.SubmitTime = got.SubmitTime // assigned by Submit in the child
+	}
 	if diffs := store.DiffPlans(exp, got, store.CmpOpt{IgnoreIDs: true}); len(diffs) > 0 {
 		r.fail("kill:partial-plan", "after SIGKILL at insert %d of %d the stored plan differs from the submitted one:%s", c.Big.K, objects, diffText(diffs))
 		return
